@@ -36,6 +36,12 @@ def handle : List String → String
       | .stalled => "stalled"
       | .err e => "exc " ++ e.name
     | _, _ => "bad-arg"
+  | ["fetches", exits] =>
+    -- exits: one letter per fetch, N = left normally (all replies read), R = left by an exception;
+    -- answer: one letter per fetch, T = opens a fresh control connection, F = reuses the pooled one
+    let fs : List Fetch := exits.toList.map fun c =>
+      if c == 'N' then ⟨[150, 226], 2, .normal⟩ else ⟨[150, 226], 1, .raised⟩
+    String.ofList ((runFetches none fs).map fun p => if p.1 then 'T' else 'F')
   | _ => "bad-op"
 
 end Wpull.Ftp
